@@ -231,5 +231,10 @@ KidsLines(dk, ind, dummy) ==
 NodeLines(d, ind, dummy) ==
     <<HeadLine(d, ind)>> \o DocLines(d, ind + 1) \o KidsLines(d.kids, ind + 1, dummy)
 DiffLines(D) == <<Line(0, "tiny", <<"2", "0">>)>> \o KidsLines(D.kids, 0, 0)
-TextExpressible(D) == D.info = None /\ D.doc = None
+(* A comment that is the empty string is a value of a mapping set (a `c` line with an empty cell), but a .tinydiff reads an  *)
+(* empty cell as "no comment": a diff that adds, removes or edits such a comment cannot be written down.                     *)
+ActHasEmptyDoc(act) == \E i \in 2..Len(act) : act[i] = <<"">>
+RECURSIVE KidsEmptyDoc(_)
+KidsEmptyDoc(dk) == \E k \in DOMAIN dk : ActHasEmptyDoc(dk[k].doc) \/ KidsEmptyDoc(dk[k].kids)
+TextExpressible(D) == D.info = None /\ D.doc = None /\ ~KidsEmptyDoc(D.kids)
 =============================================================================
